@@ -71,7 +71,8 @@ def _read_blocks(exodusDataset):
     for i, name in enumerate(blockNames):
         if not name:
             blockNames[i] = "block_" + str(i+1)
-            
+    _check_names_are_distinct(blockNames, 'block')
+
     nBlocks = len(exodusDataset.dimensions['num_el_blk'])
     blockConns = []
     blocks = {}
@@ -143,7 +144,8 @@ def _read_node_sets(exodusDataset):
         for i, name in enumerate(nodeSetNames):
             if not name:
                 nodeSetNames[i] = "nodeset_" + str(i+1)
-            
+        _check_names_are_distinct(nodeSetNames, 'node set')
+
         nodeSetNodes = []
         nNodeSets = len(exodusDataset.dimensions["num_node_sets"])
         for i in range(nNodeSets):
@@ -164,6 +166,7 @@ def _read_side_sets(exodusDataset):
         for i, name in enumerate(sideSetNames):
             if not name:
                 sideSetNames[i] = "sideset_" + str(i+1)
+        _check_names_are_distinct(sideSetNames, 'side set')
 
         nSideSets = len(exodusDataset.dimensions['num_side_sets'])
         sideSetEntries = []
@@ -202,6 +205,14 @@ def _read_names_list(exodusDataset, recordName):
     record.set_auto_mask(False)
     namesList = [b"".join(c).decode("UTF-8") for c in record[:]]
     return namesList
+
+
+def _check_names_are_distinct(names, kind):
+    # blocks / node sets / side sets are stored in dicts keyed by name: two equal
+    # names (e.g. a block named "block_2" followed by an unnamed second block)
+    # would silently drop the earlier entity
+    if len(set(names)) != len(names):
+        raise ValueError('exodus file has two ' + kind + 's with the same name: ' + str(names))
 
 
 def _get_vertex_nodes_from_exodus_tri6_mesh(conns):
